@@ -118,6 +118,9 @@ inductive Instr where
   | jumpIfTrueOrPop (lo : Nat)
   | popJumpIfFalse (lo : Nat)             -- `POP_JUMP_FORWARD_IF_FALSE`
   | jumpForward (lo : Nat)
+  | getIter
+  | forIter (lo : Nat)
+  | jumpBackward (lo : Nat)
   | popTop
   | returnValue
   deriving DecidableEq, Repr
@@ -255,6 +258,9 @@ inductive Val where
   | null                       -- the NULL pushed by `PUSH_NULL`
   | cls (c : Cls)
   | printFn
+  | rangeCtor                  -- the class `RightOpenRange` of `_erg_range.py`
+  | range (lo hi : Int)        -- `RightOpenRange(Nat lo, Nat hi)`
+  | iter (cur hi : Int)        -- its `RangeIterator`: yields `cur, cur+1, …` while `cur < hi`
   deriving DecidableEq, Repr
 
 def Const.toVal : Const → Val
@@ -368,6 +374,9 @@ def showVal : Val → List Char
   | .null => "<NULL>".toList
   | .cls c => ("<class '" ++ c.name ++ "'>").toList
   | .printFn => "<built-in function print>".toList
+  | .rangeCtor => "<class 'RightOpenRange'>".toList
+  | .range _ _ => "<RightOpenRange object>".toList
+  | .iter _ _ => "<RangeIterator object>".toList
 
 def joinSp : List (List Char) → List Char
   | [] => []
@@ -388,6 +397,7 @@ def builtin (x : String) : Option Val :=
   else if x = "Str" then some (.cls .str)
   else if x = "Bool" then some (.cls .bool)
   else if x = "print" then some .printFn
+  else if x = "RightOpenRange" then some .rangeCtor
   else Option.none
 
 def lookup (env : Env) (x : String) : Option Val :=
@@ -492,6 +502,19 @@ def step (code : List Instr) (s : VM) : StepResult :=
         else .next { s with pc := pc' + 2 * (s.ext * 256 + lo), ext := 0, stack := st }
       | [] => stuckAt s
     | .jumpForward lo => .next { s with pc := pc' + 2 * (s.ext * 256 + lo), ext := 0 }
+    | .getIter =>
+      match s.stack with
+      | .range a b :: st => .next { s with pc := pc', ext := 0, stack := .iter a b :: st }
+      | _ :: _ => raise s .typeError
+      | [] => stuckAt s
+    | .forIter lo =>
+      -- 3.11: the iterator stays on the stack while it yields; when exhausted it is popped and the jump is taken
+      match s.stack with
+      | .iter cur hi :: st =>
+        if cur < hi then .next { s with pc := pc', ext := 0, stack := .int cur :: .iter (cur + 1) hi :: st }
+        else .next { s with pc := pc' + 2 * (s.ext * 256 + lo), ext := 0, stack := st }
+      | _ => stuckAt s
+    | .jumpBackward lo => .next { s with pc := pc' - 2 * (s.ext * 256 + lo), ext := 0 }
     | .call argc =>
       match popArgs argc s.stack with
       | some (args, f :: .null :: st) =>
@@ -505,6 +528,10 @@ def step (code : List Instr) (s : VM) : StepResult :=
           | _ => raise s .typeError
         | .printFn =>
           .next { s with pc := pc', ext := 0, stack := .none :: st, out := joinSp (args.map showVal) :: s.out }
+        | .rangeCtor =>
+          match args with
+          | [.int a, .int b] => .next { s with pc := pc', ext := 0, stack := .range a b :: st }
+          | _ => raise s .typeError
         | _ => raise s .typeError
       | _ => stuckAt s
 
@@ -517,8 +544,9 @@ def runN (code : List Instr) : Nat → VM → Outcome
 
 def VM.init : VM := ⟨0, 0, [], [], []⟩
 
-/-- run with fuel = number of bytes + 1 (every step of compiled code advances `pc` by at least 2) -/
-def vmRun (code : List Instr) : Outcome := runN code (codeSize code + 1) VM.init
+/-- run with a generous fuel (loops jump backwards, so the byte count no longer bounds the number of steps; the driver
+    reports `out-of-fuel` when this is not enough, and the theorems about `vmRun` are conditional on that not happening) -/
+def vmRun (code : List Instr) : Outcome := runN code (1000 * codeSize code + 100000) VM.init
 
 /-! ### Source semantics with the wrappers (`evalW`) -/
 
